@@ -259,6 +259,49 @@ def _tv_or(vals):
     return False if all(v is False for v in vals) else None
 
 
+def swallowed_value_errors(ctx, rule):
+    """ConfigBackedParser.parse_known_args wraps the whole "read configuration, install it as defaults" step in
+    `except ValueError: pass` (meant for: this program has no configuration section).  Any OTHER ValueError raised on that
+    path makes the parser silently run with no configuration at all -- flags from config files, including the Ignore
+    mapping and the ignorable categories, are dropped without a message."""
+    import ast as _ast
+    from ..util import calls_in as _calls
+    repo, cg = ctx.repo, ctx.cg
+    pk = repo.func('nbdime.args:ConfigBackedParser.parse_known_args')
+    tries = [n for n in _ast.walk(pk) if isinstance(n, _ast.Try) and any(h.type is not None and 'ValueError' in _ast.unparse(h.type) and
+                                                                          all(isinstance(b, _ast.Pass) for b in h.body) for h in n.handlers)]
+    if not tries:
+        ctx.inst(rule, 'nbdime.args:ConfigBackedParser.parse_known_args', 'no `except ValueError: pass` around the configuration step', True,
+                 'errors while building the configuration are not swallowed', pk, nontrivial=False)
+        return
+    roots = set()
+    for st in tries[0].body:
+        for c in _calls(st):
+            for t in cg.resolve(c.func, pk):
+                if t[0] == 'func':
+                    roots.add(t[1])
+    reach = cg.reachable(sorted(roots))
+    ALLOWED = {
+        'nbdime.config:build_config': 'entrypoint',      # unknown program name: the documented reason for the swallow
+        'nbdime.diffing.notebooks:set_notebook_diff_ignores': None,   # runs after the defaults were installed
+    }
+    n = 0
+    for fid in sorted(reach):
+        if not fid.startswith(('nbdime.config', 'nbdime.args', 'nbdime.diffing.notebooks')):
+            continue
+        fn = repo.functions[fid]
+        for r in walk_no_nested(fn):
+            if isinstance(r, _ast.Raise) and r.exc is not None and 'ValueError' in _ast.unparse(r.exc)[:30]:
+                n += 1
+                ok = fid in ALLOWED and (ALLOWED[fid] is None or ALLOWED[fid] in _ast.unparse(r.exc) or
+                                         any(ALLOWED[fid] in _ast.unparse(t) for t, pol in cond_guards(CFG(fn), r)))
+                ctx.inst(rule, fid, repo.norm(r)[:110], ok,
+                         'the documented reason for the swallow / raised after the defaults were installed' if ok else
+                         'this ValueError is raised while the configuration is read and is swallowed by `except ValueError: pass` in '
+                         'ConfigBackedParser.parse_known_args: the whole configuration (incl. Ignore and the ignorable categories) is silently dropped', r)
+    if n == 0:
+        raise AnalysisError('no ValueError raise found on the configuration path (anchor moved)')
+
 def run(ctx):
     """R14.5: an ignore installed for a whole path is *consulted*.
 
@@ -266,6 +309,8 @@ def run(ctx):
     differ of the parent object looks the table up for that key.  diff_dicts does so under a guard; the guard is evaluated
     here, three-valued, for every whole-path entry of the category table with: the JSON types nbformat's schema admits at
     the path, the `atomic_paths` literal of notebook_config, and the fallback of DiffConfig.is_atomic."""
+    ctx.rule('R14.9', 'alignment predicates are reflexive: under y := x no `return False` is reachable before the equality shortcut (symbolic folding of each compare_* function)', floor=12)
+    ctx.rule('R14.8', 'no ValueError other than "unknown program name" can be raised while the configuration is read: the parser swallows ValueError and would silently run unconfigured', floor=2)
     ctx.rule('R14.7', 'in diff_dicts no entry for a key present on both sides is emitted past the differ table: every builder call in the common-key loop is '
              'either the result of the table lookup or lies on the branch where the lookup guard is false (atomic / type change)', floor=2)
     ctx.rule('R14.6', 'key filters stack: diff_ignore_keys filters the output of the very differ it was given, with the key list it was given', floor=2)
@@ -362,3 +407,6 @@ def run(ctx):
                  ('emitted only for values the lookup guard rejects (atomic or of changed type)' if ok else
                   'this entry is emitted for a key present on both sides without consulting the differ table: an ignore installed for the path '
                   '(e.g. /cells/*/source) is bypassed for the inputs this shortcut catches'), c)
+    swallowed_value_errors(ctx, 'R14.8')
+    from ..reflexive import check_reflexive
+    check_reflexive(ctx, 'R14.9')
